@@ -73,15 +73,18 @@ class TLCResult:
     def coverage(self):
         """Per-action counts from -coverage output: name -> (distinct, total)."""
         cov = {}
-        for m in re.finditer(r"<(\w+) line \d+, col \d+ to line \d+, col \d+ of module (\w+)>: (\d+):(\d+)", self.out):
-            cov[m.group(1)] = (int(m.group(3)), int(m.group(4)))
+        for m in re.finditer(r"<(\w+) line \d+, col \d+ to line \d+, col \d+ of module (\w+)(?: \([\d ]+\))?>: (\d+):(\d+)", self.out):
+            d, t = cov.get(m.group(1), (0, 0))
+            cov[m.group(1)] = (d + int(m.group(3)), t + int(m.group(4)))
         return cov
 
 
-def run(spec, cfg, workers=16, timeout=600, env=None, simulate=None, depth=None,
+def run(spec, cfg, workers=1, timeout=600, env=None, simulate=None, depth=None,
         seed=None, coverage=False, extra=None, heap="4g", deque=False, keep=False, stack="64m"):
     """spec: module name (in /verif/spec); cfg: config file name (in /verif/spec)."""
     WORK.mkdir(exist_ok=True)
+    if os.environ.get("VERIF_TLC_WORKERS"):
+        workers = int(os.environ["VERIF_TLC_WORKERS"])
     meta = tempfile.mkdtemp(prefix="m_", dir=str(WORK))
     cmd = ["timeout", "-k", "5", str(int(timeout)), "java", "-XX:+UseParallelGC",
            "-Xmx" + heap, "-Xss" + stack]
@@ -111,6 +114,10 @@ def run(spec, cfg, workers=16, timeout=600, env=None, simulate=None, depth=None,
         shutil.rmtree(meta, ignore_errors=True)
     out = p.stdout + p.stderr
     res = TLCResult(p.returncode, out, wall)
+    if os.environ.get("VERIF_TLC_STATS"):
+        with open(os.environ["VERIF_TLC_STATS"], "a") as f:
+            f.write("%s %s w=%s rc=%s gen=%s distinct=%s printed=%d wall=%.1f\n" % (
+                spec, cfg, workers, p.returncode, res.generated, res.distinct, sum(1 for l in out.splitlines() if l.startswith('"')), wall))
     if p.returncode in (124, 137):
         raise TLCError("TLC timeout after %ss on %s/%s" % (timeout, spec, cfg))
     return res
